@@ -630,7 +630,10 @@ def trust_imports(ctx: core.Ctx, mod: ast.Module, rel, names):
         if isinstance(s, ast.ImportFrom) and s.module and s.module.split(".")[0] == "sympy":
             for a in s.names:
                 imported[a.asname or a.name] = f"{s.module}.{a.name}"
+    used = {x.id for x in ast.walk(mod) if isinstance(x, ast.Name) and isinstance(x.ctx, ast.Load)}
     for nm in names:
+        if nm not in used and nm not in imported:
+            continue                                  # the module does not use this entry point at all (e.g. Matrix.jacobian instead of diff)
         rebound = [s for s in mod.body if (isinstance(s, (ast.FunctionDef, ast.ClassDef)) and s.name == nm)
                    or (isinstance(s, ast.Assign) and any(isinstance(t, ast.Name) and t.id == nm for t in s.targets))]
         if nm not in imported:
